@@ -11,6 +11,9 @@
 #define private public
 #define protected public
 #include "xtp/src/libxtp/eeinteractor.cc"
+#ifndef VERIF_NO_CART
+#include "xtp/src/libxtp/staticsite.cc"
+#endif
 #undef private
 #undef protected
 using namespace votca::xtp;
@@ -45,3 +48,12 @@ H void h_thole(const double* posA, const double* posB, double dampA, double damp
   Eigen::Matrix3d t = reinterpret_cast<eeInteractor*>(e)->FillTholeInteraction(*reinterpret_cast<PolarSite*>(a), *reinterpret_cast<PolarSite*>(b));
   for (int i = 0; i < 3; i++) for (int j = 0; j < 3; j++) out[3 * i + j] = t(i, j);
 }
+#ifndef VERIF_NO_CART
+// the library's own spherical -> Cartesian (traceless) quadrupole conversion
+H void h_cart(const double* Q, long rank, double* out) {
+  alignas(16) static char a[sizeof(PolarSite)]; std::memset(a, 0, sizeof a);
+  double p[3] = {0, 0, 0}; mkstatic(a, p, Q, rank);
+  Eigen::Matrix3d t = reinterpret_cast<StaticSite*>(a)->CalculateCartesianMultipole();
+  for (int i = 0; i < 3; i++) for (int j = 0; j < 3; j++) out[3 * i + j] = t(i, j);
+}
+#endif
